@@ -59,7 +59,7 @@ class Term:
     __slots__ = ("coef", "bound", "facs", "_k")
 
     def __init__(self, coef, bound, facs):
-        self.coef = Fraction(coef)
+        self.coef = coef if type(coef) is Fraction else Fraction(coef)
         self.bound = tuple(bound)
         # facs: dict atom -> exponent (Fraction/int), stored as sorted tuple
         if isinstance(facs, dict):
@@ -69,7 +69,7 @@ class Term:
             for a, e in facs:
                 d[a] = d.get(a, 0) + e
             items = d.items()
-        self.facs = tuple(sorted(((a, Fraction(e)) for a, e in items if e != 0), key=_akey))
+        self.facs = tuple(sorted(((a, e if type(e) is Fraction else Fraction(e)) for a, e in items if e != 0), key=_akey))
         self._k = None
 
     def skey(self):
@@ -83,8 +83,17 @@ class Term:
         return f"{self.coef}{b}{'·' if f else ''}{f}"
 
 
+_AKEY = {}
+
+
 def _akey(item):
-    return repr(item[0])
+    a = item[0]
+    r = _AKEY.get(a)
+    if r is None:
+        if len(_AKEY) > 500000:
+            _AKEY.clear()
+        r = _AKEY[a] = repr(a)
+    return r
 
 
 def _arepr(a):
@@ -97,6 +106,8 @@ def _arepr(a):
         return f"[{a[1]}<{size_from_key(a[2])}]"
     if k == "N":
         return f"#{size_from_key(a[1])}"
+    if k == "K":
+        return a[1]
     if k == "P":
         return f"({a[1]!r})"
     if k == "F":
@@ -227,7 +238,9 @@ def as_expr(x):
     if isinstance(x, (int, Fraction)):
         return const(x)
     if isinstance(x, float):
-        return const(Fraction(x).limit_denominator(10**12) if x != int(x) else int(x))
+        if x != x or x in (float("inf"), float("-inf")):
+            return Expr([Term(1, (), [(("K", repr(x)), 1)])])
+        return const(Fraction(x) if x != int(x) else int(x))
     if isinstance(x, SInt):
         return size_expr(x)
     raise TypeError(f"cannot make Expr from {type(x)}")
@@ -271,6 +284,8 @@ def i_subst(i, sub):
         return sub.get(i, i)
     if isinstance(i, tuple) and i and i[0] == "G":
         return ("G", i[1], tuple(i_subst(j, sub) for j in i[2]))
+    if isinstance(i, tuple) and i and i[0] in ("O", "DIV", "MOD"):  # offset / div / mod of an index term by a size
+        return (i[0], i_subst(i[1], sub), i[2])
     return i
 
 
@@ -282,6 +297,8 @@ def i_vars(i):
         for j in i[2]:
             s |= i_vars(j)
         return s
+    if isinstance(i, tuple) and i and i[0] in ("O", "DIV", "MOD"):
+        return i_vars(i[1])
     return set()
 
 
@@ -312,7 +329,7 @@ def a_subst(a, sub):
         return ("D", x, y)
     if k == "I":
         return ("I", sub.get(a[1], a[1]) if isinstance(a[1], str) else a[1], a[2])
-    if k == "N":
+    if k in ("N", "K"):
         return a
     if k == "P":
         return ("P", a[1].subst(sub))
@@ -332,7 +349,7 @@ def a_vars(a):
         return {i for i in a[1:3] if isinstance(i, str)}
     if k == "I":
         return {a[1]} if isinstance(a[1], str) else set()
-    if k == "N":
+    if k in ("N", "K"):
         return set()
     if k == "P":
         return a[1].free_vars()
@@ -355,6 +372,13 @@ def t_subst(t, sub):
     sub = {k: v for k, v in sub.items() if k not in t.bound}
     if not sub:
         return t
+    if t.bound:
+        # capture avoidance: a substituted-in variable must not coincide with one of this term's bound variables
+        incoming = set()
+        for v in sub.values():
+            incoming |= i_vars(v)
+        if incoming & set(t.bound):
+            t = t_rename_bound(t)
     return Term(t.coef, t.bound, [(a_subst(a, sub), e) for a, e in t.facs])
 
 
@@ -406,6 +430,38 @@ def _is_sum_of_squares(expr):
                 continue
             return False
     return True
+
+
+def _ortho_rewrite(coef, bound, facs):
+    """sum_i U[i,a] conj(U[i,b]) -> delta(a,b) for U registered in ORTHO, when the bound index i occurs nowhere else."""
+    for v in bound:
+        occ = [(a, e) for a, e in facs.items() if v in a_vars(a)]
+        tot = sum(e for _, e in occ)
+        if tot != 2 or any(a[0] != "E" or a[1] not in ORTHO or e.denominator != 1 for a, e in occ):
+            continue
+        name = occ[0][0][1]
+        if any(a[1] != name for a, _ in occ):
+            continue
+        ax = ORTHO[name]
+        ats = []
+        for a, e in occ:
+            ats.extend([a] * int(e))
+        a1, a2 = ats
+        if len(a1[2]) != 2 or a1[2][ax] != v or a2[2][ax] != v or a1[2][1 - ax] == v or a2[2][1 - ax] == v:
+            continue
+        if name not in REAL_INPUTS and a1[3] == a2[3]:
+            continue
+        nf = dict(facs)
+        for a, e in occ:
+            del nf[a]
+        x, y = a1[2][1 - ax], a2[2][1 - ax]
+        if x != y:
+            if isinstance(x, int) and isinstance(y, int):
+                return Term(0, (), ())
+            d = ("D",) + tuple(sorted([x, y], key=repr))
+            nf[d] = nf.get(d, 0) + 1
+        return Term(coef, [b for b in bound if b != v], nf)
+    return None
 
 
 def _is_real(expr):
@@ -578,6 +634,11 @@ def simplify_term(t):
                     facs = nf
                     changed = True
                     break
+    # hypothesis rewriting: orthonormality of dependency results
+    if ORTHO:
+        hit = _ortho_rewrite(coef, bound, facs)
+        if hit is not None:
+            return simplify_term(hit)
     # unused bound variables -> size factor
     used = set()
     for a in facs:
@@ -607,6 +668,8 @@ def _idx_key(i, ren):
         return ren.get(i, "$" + i)
     if isinstance(i, tuple) and i and i[0] == "G":
         return ("G", i[1], tuple(_idx_key(j, ren) for j in i[2]))
+    if isinstance(i, tuple) and i and i[0] in ("O", "DIV", "MOD"):
+        return (i[0], _idx_key(i[1], ren), i[2])
     return i
 
 
@@ -619,7 +682,7 @@ def atom_key(a, ren, depth):
         return ("D", x, y)
     if k == "I":
         return ("I", _idx_key(a[1], ren), a[2])
-    if k == "N":
+    if k in ("N", "K"):
         return a
     if k == "P":
         return ("P", expr_key(a[1], ren, depth + 1))
@@ -656,6 +719,9 @@ MAX_PERMS = 40320
 MAX_EXPAND = 8
 # rewriting rules that hold only under a side condition of the obligation (set/cleared by the obligation runner)
 RULES = {"sign_sq_one": False}
+# hypothesis rewriting (assumed contracts of svd/qr/eigh results): name -> axis over which the matrix is orthonormal,
+# i.e. sum_i U[i,a] conj(U[i,b]) = delta(a,b) when axis == 0  (orthonormal columns), axis == 1: orthonormal rows.
+ORTHO = {}
 
 
 def term_key(t, ren, depth, want_ren=False):
@@ -725,9 +791,27 @@ def alpha_normalize(expr):
     return Expr(out)
 
 
+_KEY_CACHE = {}
+
+
 def expr_key(expr, ren=None, depth=0):
     """Canonical key (hashable) of an expression.  Equal keys <=> equal expressions on the polynomial fragment."""
     ren = ren or {}
+    if depth > 0 and current_ctx() is None or depth > 0:
+        fv = expr.free_vars()
+        ck = (expr.skey(), tuple(sorted((v, ren.get(v)) for v in fv)), depth, RULES["sign_sq_one"], len(ORTHO))
+        hit = _KEY_CACHE.get(ck)
+        if hit is not None:
+            return hit
+        if len(_KEY_CACHE) > 200000:
+            _KEY_CACHE.clear()
+        r = _expr_key(expr, ren, depth)
+        _KEY_CACHE[ck] = r
+        return r
+    return _expr_key(expr, ren, depth)
+
+
+def _expr_key(expr, ren, depth):
     acc = {}
     for t in expr.terms:
         for s in simplify_term(t):
